@@ -49,8 +49,11 @@ class HistTransport:
         self.written: list[bytes] = []
         self.hang = asyncio.Event()
         self.reconnect_fail: BaseException | None = None
+        self.suspend = False
 
     async def write(self, data: bytes, timeout: float | None = None, tags: list[str] | None = None) -> int:
+        if self.suspend:
+            await asyncio.sleep(0)  # the request is on its way: other users of the client get to run (and queue up)
         self.written.append(bytes(data))
         return len(data)
 
@@ -107,7 +110,7 @@ def exchange_s(draw) -> dict[str, Any]:
         req: Any = {"special": list(draw(special))}
     else:
         req = draw(refcodec.request_case())
-    return {"req": req, "outcome": draw(outcome_s), "analyze": draw(st.booleans()), "tail": draw(st.binary(max_size=6))}
+    return {"req": req, "outcome": draw(outcome_s), "analyze": draw(st.booleans()), "tail": draw(st.binary(max_size=6)), "with_ping": draw(st.integers(0, 4)) == 0}
 
 
 @st.composite
@@ -124,6 +127,8 @@ def case_s(draw) -> dict[str, Any]:
         logged = sum(1 for e in exchanges if e["logging"])
         if logged:
             case["db_locked"] = [logged - 1]
+            for e in exchanges:
+                e["with_ping"] = False  # keeps "the last row" well defined (a retried row in the middle may get a later id)
     return case
 
 
@@ -250,8 +255,20 @@ def run_history(case: dict[str, Any], dbpath: Path) -> dict[str, Any]:
                 exp = {"i": i, "request": req_bytes.hex(), "reply": None if reply is None else reply.hex(), "state": {"session": session, "security_access_level": level},
                        "mode": "emphasized" if e["analyze"] else "implicit", "logged": e["logging"], "kind": "hang" if hang else kind}
                 rec["sent"].append(exp)
+                with_ping = bool(e.get("with_ping")) and kind in ("positive", "negative") and not hang
                 try:
-                    await ecu.request(rq, UDSRequestConfig(tags=["ANALYZE"] if e["analyze"] else None, max_retry=1 if kind == "connerr-retry-refused" else None))
+                    cfg_ = UDSRequestConfig(tags=["ANALYZE"] if e["analyze"] else None, max_retry=1 if kind == "connerr-retry-refused" else None)
+                    if with_ping:
+                        # a second user of the client (the tester-present worker's ping) asks while this exchange is in flight; the
+                        # client serialises the two, the ping is sent - and recorded - in the state this exchange leaves behind
+                        tr.queue.append(b"\x7e\x00")
+                        tr.suspend = True
+                        res_ = await asyncio.gather(ecu.request(rq, cfg_), ecu.ping(), return_exceptions=True)
+                        tr.suspend = False
+                        if isinstance(res_[0], BaseException):
+                            raise res_[0]
+                    else:
+                        await ecu.request(rq, cfg_)
                     exp["exc"] = None
                 except asyncio.CancelledError:
                     exp["exc"] = "cancelled"
@@ -270,6 +287,9 @@ def run_history(case: dict[str, Any], dbpath: Path) -> dict[str, Any]:
                         ns = int.from_bytes(reply[3:], "big")
                         if ns != session:
                             session, level = ns, None
+                if with_ping:
+                    rec["sent"].append({"i": i, "request": "3e00", "reply": "7e00", "state": {"session": session, "security_access_level": level},
+                                        "mode": "implicit", "logged": e["logging"], "kind": "positive", "exc": None})
 
         lg = logging.getLogger("gallia")
         tap = Tap()
